@@ -214,7 +214,9 @@ _GREY = re.compile(r"^\s*\d{1,4}-\d{1,2}-\d{1,2}T\d{1,2}:\d{1,2}:\d{1,2}\s*$")
 def _info_text(bs):
     lines = []
     kinds = set()
-    paths = ["/home/u/a", "w/b", "a%20b", "%41", "/x/%C3%A9", "", "rel/../x", "/tr ail ", "a%2Fb", "%zz"]
+    paths = ["/home/u/a", "w/b", "a%20b", "%41", "/x/%C3%A9", "", "rel/../x", "/tr ail ", "a%2Fb", "%zz",
+             "/r%0ADeletionDate%3D2001-01-01T00%3A00%3A00", "/r%0ADeletionDate=2001-01-01T00:00:00",
+             "/r%0APath=/other", "a+b", "/c%2B%2B"]
     dates = ["2001-02-03T04:05:06", "2037-01-01T00:00:00", "not-a-date", "2001-02-03", "",
              "2001-02-03T04:05:06Z", "2001-13-40T25:61:61", " 2001-02-03T04:05:06", "2001-02-03T04:05:06 ",
              "0001-01-01T00:00:00", "9999-12-31T23:59:59", "2001-2-3T4:5:6"]
